@@ -39,6 +39,7 @@ use konst::iter;
 pub trait H { fn h(&self) -> i32; }
 impl H for i32 { fn h(&self) -> i32 { *self } }
 impl H for usize { fn h(&self) -> i32 { *self as i32 } }
+impl H for u8 { fn h(&self) -> i32 { *self as i32 } }
 impl H for char { fn h(&self) -> i32 { *self as i32 } }
 impl H for str { fn h(&self) -> i32 { self.len() as i32 * 5 + self.bytes().next().unwrap_or(0) as i32 } }
 impl H for [i32] { fn h(&self) -> i32 { self.iter().fold(self.len() as i32, |a, x| a.wrapping_mul(7).wrapping_add(*x)) } }
@@ -62,9 +63,12 @@ pub struct Chain {
     /// bit 0 s, 1 t, 2 ss, 3 st, 4 a/b, 5 n0, 6 n1
     pub uses: u32,
     pub has_alt: bool,
+    /// the source ends by integer overflow (a `u8` RangeFrom): `t` is the std chain with every take(n) replaced by take(n+1)
+    pub has_t: bool,
     pub k: fn(&Inp) -> String,
     pub s: fn(&Inp) -> String,
     pub a: fn(&Inp) -> String,
+    pub t: fn(&Inp) -> String,
 }
 
 fn slices(vals: &[i32], maxlen: usize) -> Vec<Vec<i32>> {
@@ -110,6 +114,7 @@ pub fn run_all(chains: &[Chain]) {
         let mut known: u64 = 0;
         let mut documented: u64 = 0;
         let mut multi_item: u64 = 0;
+        let mut takex: u64 = 0;
         let ss_sel = if c.uses & 4 != 0 { &all_ss } else { &one_ss };
         let s_sel = if c.uses & 1 != 0 { &all_s } else { &one_s };
         let t_sel = if c.uses & 2 != 0 { &all_t } else { &one_t };
@@ -121,11 +126,20 @@ pub fn run_all(chains: &[Chain]) {
             let ssv: Vec<&[i32]> = ssi.iter().map(|&i| &ss_parts[i][..]).collect();
             for s in s_sel { for t in t_sel { for st in st_sel { for &(a, b) in ab_sel { for &n0 in n0_sel { for &n1 in n1_sel {
                 let inp = Inp { s, t, ss: &ssv, st, a, b, n0, n1 };
-                let k = std::panic::catch_unwind(|| (c.k)(&inp)).unwrap_or_else(|_| "<konst panicked>".to_string());
-                let o = (c.s)(&inp);
+                let k = std::panic::catch_unwind(|| (c.k)(&inp)).unwrap_or_else(|_| "<panicked>".to_string());
+                let o = if c.has_t { std::panic::catch_unwind(|| (c.s)(&inp)).unwrap_or_else(|_| "<panicked>".to_string()) } else { (c.s)(&inp) };
                 evals += 1;
                 if k.len() > 8 { multi_item += 1; }
                 if k == o { continue; }
+                if c.has_t && k == "<panicked>" {
+                    // alternative model of the known finding: konst's take(n) pulls n+1 items from its source
+                    let t = std::panic::catch_unwind(|| (c.t)(&inp)).unwrap_or_else(|_| "<panicked>".to_string());
+                    if t == "<panicked>" {
+                        takex += 1;
+                        if takex <= 2 { println!("TAKEX {} {:?} k={} s={}", c.id, inp, k, o); }
+                        continue;
+                    }
+                }
                 if c.has_alt {
                     let alt = (c.a)(&inp);
                     if k == alt {
@@ -144,7 +158,7 @@ pub fn run_all(chains: &[Chain]) {
             } } } } } }
         }
         total += evals;
-        println!("CHAIN {} evals={} fails={} alt_only={} multi={}", c.id, evals, fails, known, multi_item);
+        println!("CHAIN {} evals={} fails={} alt_only={} multi={} takex={}", c.id, evals, fails, known, multi_item, takex);
         let _ = documented;
     }
     println!("TOTAL {}", total);
@@ -166,12 +180,14 @@ SOURCES = {
     "chars": ("konst::string::chars(inp.st)", "inp.st.chars()", "inp.st.chars().rev()", "char", True, False, True, 8),
     "split": ("konst::string::split(inp.st, ',')", "inp.st.split(',')", "inp.st.split(',').rev()", "&str", True, False, True, 8),
     "repeat": ("konst::iter::repeat(inp.a)", "std::iter::repeat(inp.a)", None, "i32", False, False, False, 16),
+    # ends by overflow after at most 256 items: adapters may come between it and the bounding take
+    "range_from_u8": ("((inp.a as u8).wrapping_add(240)..)", "((inp.a as u8).wrapping_add(240)..)", None, "u8", False, False, False, 16),
     "array_ref": ("&[3i32, 1, 2]", "[3i32, 1, 2].iter()", "[3i32, 1, 2].iter().rev()", "&i32", True, True, True, 0),
     "by_ref_range": ("&(inp.a..inp.b)", "(inp.a..inp.b)", "(inp.a..inp.b).rev()", "i32", True, True, True, 16),
 }
 SOURCE_WEIGHTS = [("slice", 8), ("range", 4), ("range_inc", 2), ("range_from", 2), ("slices2", 2), ("iter_copied", 2),
                   ("windows", 1), ("chunks", 1), ("rchunks", 1), ("chars", 1), ("split", 1), ("repeat", 1), ("array_ref", 1),
-                  ("by_ref_range", 1)]
+                  ("by_ref_range", 1), ("range_from_u8", 2)]
 
 ZIP_ARGS = {
     # name -> (konst, std, std reversed, item type, exact, finite, de, uses)
@@ -197,6 +213,7 @@ class State:
         self.seen_posdep = False
         self.seen_enum = False
         self.konst_can_rev = a is not None  # every konst iterator so far supports next_back
+        self.overflow_src = src == "range_from_u8"
 
 
 def tuple_of(a, b):
@@ -207,7 +224,10 @@ def apply_adapter(st, ad):
     """Mutates `st`; returns False if the adapter is not applicable (type / std expressibility)."""
     m = ad["m"]
     if not st.finite and m not in ("take", "zip"):
-        return False
+        # an unbounded source must be bounded at once, except the overflow-terminated one: there only
+        # element-wise adapters may come first (so that std's chain still ends, by take or by the overflow panic)
+        if not (st.overflow_src and m in ("filter", "map", "filter_map", "copied", "enumerate", "skip", "skip_while", "take_while")):
+            return False
     if m == "copied":
         if st.ty not in ("&i32", "&&[i32]"):
             return False
@@ -403,7 +423,7 @@ def render_chain(desc):
     form = c.get("form", 0)
     has_alt = r_index is not None
     flags = dict(has_alt=has_alt, posdep=st.posdep_before_r, enum_before_r=st.enum_before_r,
-                 rposition=(cm == "rposition"), uses=st.uses)
+                 rposition=(cm == "rposition"), uses=st.uses, has_t=st.overflow_src)
     return kparts, sparts, aparts, ksrc, ssrc, asrc, item_ty, flags
 
 
@@ -466,12 +486,14 @@ def render_fns(i, desc):
     else:
         raise ValueError(cm)
     sbody = std_consume(schain, cm)
+    tbody = std_consume(schain.replace(".take(inp.n0)", ".take(inp.n0 + 1)"), cm) if flags["has_t"] else "String::new()"
     fwd = {"rfind": "find", "rfold": "fold", "rposition": "position"}.get(cm, cm)
     abody = std_consume(achain, fwd) if achain else "String::new()"
     src = []
     src.append("fn k_%d(inp: &Inp) -> String { %s }" % (i, kbody))
     src.append("fn s_%d(inp: &Inp) -> String { %s }" % (i, sbody))
     src.append("fn a_%d(inp: &Inp) -> String { %s }" % (i, abody))
+    src.append("fn t_%d(inp: &Inp) -> String { %s }" % (i, tbody))
     return "\n".join(src), flags
 
 
@@ -481,8 +503,8 @@ def render_program(descs):
         f, flags = render_fns(i, d)
         fns.append("// %s\n%s" % (json.dumps(d, sort_keys=True), f))
         flags_all.append(flags)
-        table.append("Chain { id: %d, uses: %d, has_alt: %s, k: k_%d, s: s_%d, a: a_%d }," %
-                     (i, flags["uses"], "true" if flags["has_alt"] else "false", i, i, i))
+        table.append("Chain { id: %d, uses: %d, has_alt: %s, has_t: %s, k: k_%d, s: s_%d, a: a_%d, t: t_%d }," %
+                     (i, flags["uses"], "true" if flags["has_alt"] else "false", "true" if flags["has_t"] else "false", i, i, i, i))
     src = PRELUDE + "\n" + "\n\n".join(fns) + "\n\nfn main() {\n    let chains = vec![\n        " + \
         "\n        ".join(table) + "\n    ];\n    std::panic::set_hook(Box::new(|_| {}));\n    run_all(&chains);\n}\n"
     return src, flags_all
@@ -535,7 +557,7 @@ def gen_chain(rng, want_adapter=None, want_consumer=None, max_depth=5):
             m = None
             if not placed and rng.random() < 0.5:
                 m = want_adapter
-            if not st.finite:
+            if not st.finite and not (st.overflow_src and rng.random() < 0.6):
                 m = rng.choice(["take", "zip"])
             ad = random_adapter(rng, m)
             if not st.finite and ad["m"] == "zip" and ad["arg"] == "range_from":
@@ -581,6 +603,9 @@ def corpus(rng):
         {"src": "slices2", "adapters": [{"m": "flatten"}, {"m": "rev"}, {"m": "zip", "arg": "slice"}], "consumer": {"m": "for_each"}, "macro": "eval"},
         {"src": "slice", "adapters": [{"m": "flat_map", "inner": "range"}, {"m": "take"}, {"m": "skip_while", "form": 0}], "consumer": {"m": "count"}, "macro": "eval"},
         {"src": "range_from", "adapters": [{"m": "zip", "arg": "slice"}, {"m": "map", "form": 3}], "consumer": {"m": "fold", "form": 1}, "macro": "eval"},
+        {"src": "range_from_u8", "adapters": [{"m": "take"}], "consumer": {"m": "for_each"}, "macro": "for_each"},
+        {"src": "range_from_u8", "adapters": [{"m": "filter", "form": 0}, {"m": "take"}], "consumer": {"m": "for_each"}, "macro": "eval"},
+        {"src": "range_from_u8", "adapters": [{"m": "skip"}, {"m": "map", "form": 0}, {"m": "take"}], "consumer": {"m": "count"}, "macro": "eval"},
     ])
     return [d for d in out if typecheck(d) is not None]
 
@@ -702,6 +727,8 @@ def parse_output(out):
         elif line.startswith("FAIL "):
             cid = int(line.split()[1])
             fails.setdefault(cid, []).append(line)
+        elif line.startswith("TAKEX "):
+            pass
         elif line.startswith("ALT "):
             cid = int(line.split()[1])
             alts.setdefault(cid, []).append(line)
@@ -727,6 +754,12 @@ def classify(desc, flags, chain_stats, fails, alts, known_sigs):
     """returns (violations list, known_hits, documented_hits)"""
     v = list(fails)
     known = documented = 0
+    n_tx = chain_stats.get("takex", 0)
+    if n_tx:
+        if "take-pulls-one-extra-item" in known_sigs:
+            known += n_tx
+        else:
+            v.append("konst panicked where std's chain ends normally; std with take(n+1) panics too (take pulls one extra item): %d inputs" % n_tx)
     n_alt = chain_stats.get("alt_only", 0)
     if n_alt:
         if flags["posdep"]:
@@ -786,7 +819,7 @@ def run(prop, tier, seed, out, timeout, **kw):
     programs = 0
     nontriv = set()
     samples = []
-    labels = {"known_finding_hits": 0, "documented_exception_hits": 0, "chains_with_reversal": 0}
+    labels = {"known_finding_hits": 0, "documented_exception_hits": 0, "chains_with_reversal": 0, "take_extra_pull_hits": 0}
     violations = []
     for name, descs in batches:
         res, outp, flags = run_batch(name, descs, tier, timeout)
@@ -799,6 +832,7 @@ def run(prop, tier, seed, out, timeout, **kw):
             stc = chains.get(i, {})
             v, kn, doc = classify(d, flags[i], stc, fails.get(i, []), alts.get(i, []), known_sigs)
             labels["known_finding_hits"] += kn
+            labels["take_extra_pull_hits"] += stc.get("takex", 0)
             labels["documented_exception_hits"] += doc
             if flags[i]["has_alt"]:
                 labels["chains_with_reversal"] += 1
@@ -845,7 +879,7 @@ def run(prop, tier, seed, out, timeout, **kw):
         text.append("VIOLATION property=%s replay=%s" % (prop, path))
         rc = 1
     for sig, desc in known:
-        text.append("KNOWN-FINDING: property=%s %s (signature=%s, hits this run=%d)" % (prop, desc, sig, labels["known_finding_hits"] if sig == "posdep-adapter-before-reversal" else 0))
+        text.append("KNOWN-FINDING: property=%s %s (signature=%s, hits this run=%d)" % (prop, desc, sig, (labels["known_finding_hits"] - labels["take_extra_pull_hits"]) if sig == "posdep-adapter-before-reversal" else labels["take_extra_pull_hits"]))
     wall = time.time() - t0
     text.append("[%s %s] programs=%d evaluations=%d distinct_nontrivial=%d violations=%d wall=%.1fs" %
                 (prop, ENGINE, programs, evaluations, len(nontriv), len(violations), wall))
